@@ -93,10 +93,25 @@ func TestC02Rapid(t *testing.T) {
 			t.Fatalf("VERIF-HARNESS: the combined edit list does not apply: %v", err)
 		}
 
-		cache, _ := cdi.NewCache(cdi.WithSpecDirs(l.Paths()...), cdi.WithAutoRefresh(false))
+		// the cache: manual refresh, or (one case in four) an auto-refresh cache whose watcher could not be created
+		// (descriptor shortage at creation): such a cache rescans the directories on every lookup, which must not show
+		cacheKind := "manual"
+		var cache *cdi.Cache
+		if rapid.IntRange(0, 3).Draw(t, "watcherlessCache") == 0 {
+			if restore, err := exhaustDescriptors(); err == nil {
+				cache, _ = cdi.NewCache(cdi.WithSpecDirs(l.Paths()...), cdi.WithAutoRefresh(true))
+				restore()
+				defer cache.Configure(cdi.WithAutoRefresh(false))
+				cacheKind = "auto-refresh without a watcher"
+				rec.Label("cache-without-watcher")
+			}
+		}
+		if cache == nil {
+			cache, _ = cdi.NewCache(cdi.WithSpecDirs(l.Paths()...), cdi.WithAutoRefresh(false))
+		}
 		unresolved, ierr := cache.InjectDevices(o, req...)
 		fail := func(msg string) {
-			t.Fatalf("C02 violated: %s\nrequest: %q\nlayout: %s\nOCI before: %s", msg, req, canonJSON(l.Describe()), canonJSON(before))
+			t.Fatalf("C02 violated: %s\nrequest: %q\ncache: %s\nlayout: %s\nOCI before: %s", msg, req, cacheKind, canonJSON(l.Describe()), canonJSON(before))
 		}
 		if ierr != nil || unresolved != nil {
 			fail(fmt.Sprintf("injection of resolvable devices failed: %v %v", unresolved, ierr))
